@@ -158,6 +158,7 @@ func VerifHarness_FrameCreate() {
 		tr.SaveCall(callerAddr, &callerAddr, nil, uint256.NewInt(0), uint256.NewInt(0))
 	}
 	expectedIndex, cursor := tr.callTree.count, tr.callTree.current
+	stampBefore := tr.CurrentCallIndex()
 
 	calleeKind := verifU64("callee.err")
 	verifAssume(calleeKind <= 3)
@@ -212,6 +213,7 @@ func VerifHarness_FrameCreate() {
 	}
 	verifAssert(rec.count("JP") == 0, "C05: creations fire no contract-call join point")
 
+	verifAssert(tr.CurrentCallIndex() == stampBefore, "C10: after the creation returns, entries are attributed to the issuing frame again")
 	ct := tr.CallTree()
 	verifAssert(ct.count == expectedIndex+1 && ct.Current() == cursor, "C07: one node per creation attempt, cursor restored")
 	node := ct.FindCall(expectedIndex)
@@ -254,6 +256,14 @@ func VerifHarness_PrecompileViaFrame(kind, which uint64) {
 	verifRunHook = func(in *EVMInterpreter, ctx context.Context, contract *Contract, inp []byte, ro bool) ([]byte, error) {
 		ran++
 		return nil, nil
+	}
+	if which == 102 && berlin && verifBool("priorwrite") {
+		// an earlier, unrelated contract wrote a context value through a plain CALL
+		verifReach("prior-write")
+		other := common.Address{0xaa}
+		_, _, perr := evm.Call(verifCtx, AccountRef(other), addr, make([]byte, 128), 10000, new(big.Int))
+		verifAssert(perr == hostErr, "C14: a well-formed context write through CALL returns the host's verdict")
+		*calls = (*calls)[:0]
 	}
 	entryLen := len(env.db.journal)
 	var left uint64
